@@ -304,13 +304,14 @@ func (c *Ctx) Finish() int {
 		cov["inconclusive_reasons"] = uniq(c.inconclusive)
 	}
 	cov["verdict"] = verdict
+	assumptions := append([]string{"trusted base: Go toolchain and race detector, Tendermint ABCI/ValidatorSet types, IAVL and goleveldb, go-ethereum EVM interpreter / RLP / secp256k1, the harness's own model and dump accessors"}, c.assumptions...)
 	ev := map[string]interface{}{
 		"property_id": c.ID,
 		"tier":        map[bool]string{true: "quick", false: "thorough"}[c.Quick()],
 		"seed":        c.Seed,
 		"level":       c.Level,
 		"coverage":    cov,
-		"assumptions": c.assumptions,
+		"assumptions": assumptions,
 		"wall_s":      time.Since(c.start).Seconds(),
 		"violations":  len(c.violations),
 	}
